@@ -21,7 +21,7 @@ def alpha(name, sd=None):
 def char_alpha(sd=0):
     """character layer: exotic characters as text atoms (C01/C02 only; R12)"""
     N = gram.Names(sd)
-    texts = ['\r', '\t', '~', '&', '#', '^', '_', 'é', ' ', ' ', N.a + '\r' + N.a, '\t' + N.a]
+    texts = ['\r', '\t', '~', '&', '#', '^', '_', 'é', ' ', ' ', N.a + '\r' + N.a, '\t' + N.a, '\r\n', N.a + '\r\n' + N.b, '\x0c']
     cont = {'cmd{}', 'cmd[]', 'group', 'env', 'env{}', 'item', 'item[]', 'm$', 'm[', 'meq'}
     return gram.Alphabet('A_char', N, texts, cont, star=False, eof_comment=False, cr_comment=True)
 
